@@ -139,6 +139,30 @@ def shard(ctx, shard_no, nshards, n):
     with ctx.timed('roundtrip'):
         core.run_hypothesis(ctx, 'roundtrip', from_tape(cases), body, n)
 
+    def body_f23(inp):
+        # labelled family for the known finding F23: the event's own alias as a bare message value
+        try:
+            r = 'holds' if sub_roundtrip(inp) is not None else 'rejected-by-parser'
+        except Violation as v:
+            if not ctx.suppressed(v):
+                raise
+            r = 'known-finding'
+        ctx.case(inp['text'], True, 'own-alias-as-message-value:' + r, sample=inp['text'])
+
+    def f23_cases(ch):
+        fn = ch.pick(['roll', 'pitch', 'yaw'])
+        alias = ch.pick(['A', 'M', 'msg'])
+        rel = ch.pick(['>', '<', '=', '>='])
+        extra = ch.pick(['', ' and x > 1', ' or @%s.y < 2' % alias])
+        scope = ch.pick(['globally', 'after p', 'until q'])
+        pat = ch.pick(['no t as %s {%s}', 'some t as %s {%s}', 't as %s {%s} causes u'])
+        pred = f'{fn}(@{alias}) {rel} 0{extra}'
+        return {'kind': 'property', 'text': f'{scope}: ' + pat % (alias, pred)}
+
+    if shard_no == 0:
+        with ctx.timed('f23-family'):
+            core.run_hypothesis(ctx, 'f23', from_tape(f23_cases, 32), body_f23, 40)
+
 
 def run(ctx):
     if ctx.tier == 'quick':
